@@ -353,6 +353,10 @@ class World:
             h = cls(*args, **kwargs, **kw)
         except Exception as ex:             # noqa
             exc = type(ex).__name__ + ":" + str(ex)[:80]
+            if C.os.environ.get("VERIF_DEBUG"):
+                import traceback
+                traceback.print_exc()
+                print("ARGS", repr(args)[:600], repr(kwargs)[:300])
         self.prog.append(f"new {X.key(tx)[:60]} b={b} {placement} -> {None if h is None else h._offset} {exc}")
         if h is None:
             self.record("rejected", reads=False, exc=exc, what="new", form=_form(py))
